@@ -278,29 +278,23 @@ def r01d(model: Model, rr: RuleResult):
             else:
                 rr.ok(f"{name}.colors() covers {sorted(need)}")
     # colour line
-    fi = model.func("paint", "_ufoColorLine")
-    from ..paintmodel import returned_dict
-    d = returned_dict(fi)
-    if d is None:
+    from ..paintmodel import color_line
+    fi, keys, v, sk = color_line(model)
+    if keys is None:
         raise AnalysisError("_ufoColorLine does not return a dict literal")
-    keys = {k.value: v for k, v in zip(d.keys, d.values)}
-    stop = keys.get("ColorStop")
-    ok = isinstance(stop, ast.ListComp) and isinstance(stop.elt, ast.Dict) and norm(stop.generators[0].iter).endswith(".stops")
-    if ok:
-        sk = {k.value: norm(v) for k, v in zip(stop.elt.keys, stop.elt.values)}
-        v = norm(stop.generators[0].target)
+    if sk is not None:
         if sk.get("StopOffset") == f"{v}.stopOffset" and sk.get("Alpha") == f"{v}.color.alpha" and sk.get("PaletteIndex") == f"{v}.color.opaque().index_from(colors)":
             rr.ok("ColorLine: one ColorStop per stop, in order, with StopOffset / opaque palette index / Alpha")
         else:
-            rr.bad(fi, stop, f"ColorStop record wiring is {sk}", construct="_ufoColorLine: ColorStop dict")
+            rr.bad(fi, fi.node, f"ColorStop record wiring is {sk}", construct="_ufoColorLine: ColorStop dict")
         if set(sk) != {"StopOffset", "PaletteIndex", "Alpha"} or set(keys) != {"ColorStop", "Extend"}:
-            rr.bad(fi, d, "ColorLine / ColorStop keys differ from otData ColorLine(Extend, ColorStop[StopOffset, PaletteIndex, Alpha])", construct="_ufoColorLine keys")
+            rr.bad(fi, fi.node, "ColorLine / ColorStop keys differ from otData ColorLine(Extend, ColorStop[StopOffset, PaletteIndex, Alpha])", construct="_ufoColorLine keys")
         if norm(keys.get("Extend")).endswith(".extend.name.lower()"):
             rr.ok("ColorLine: Extend <- gradient.extend")
         else:
-            rr.bad(fi, d, "ColorLine Extend is not the gradient's extend mode", construct=f"Extend: {short(keys.get('Extend'))}")
+            rr.bad(fi, fi.node, "ColorLine Extend is not the gradient's extend mode", construct=f"Extend: {short(keys.get('Extend'))}")
     else:
-        rr.bad(fi, fi.node, "_ufoColorLine does not emit one ColorStop per gradient stop in order", construct="_ufoColorLine: ColorStop")
+        rr.bad_shape(fi, fi.node, "_ufoColorLine does not emit one ColorStop per gradient stop in order", construct="_ufoColorLine: ColorStop")
 
 
 @RULES.rule("C01", "R01e", "group opacity and stop/shape opacity are encoded (composite SRC_IN over black@alpha; alpha = stop x shape)", floor=7)
